@@ -188,3 +188,9 @@ func lemma_C10_bool_never_ordered(op string, x, y bool) bool {
 //@ ensures has: f.Op == "has" ==> result == inSlice(str(f.Val), sl(fieldVal(res, f.Field)))
 //@ loop 0 invariant all-so-far: forall k int :: 0 <= k && k <= $idx ==> allowedNow(filters[k], res)
 //@ loop 1 invariant none-so-far: forall k int :: 0 <= k && k <= $idx ==> !allowedNow(filters#1[k], res)
+
+// Decoding a filter tree (reached from URL parsing through encoding/json): no panic.
+//@ func Filter.UnmarshalJSON
+//@ props C07
+//@ requires nonnil: f != nil
+//@ modifies all
